@@ -135,6 +135,13 @@ pub mod verif {
     pub use crate::tree_store::page_store_verif::*;
 }
 
+/// Verification hook for the cache layer (`PagedCachedFile` over a caller-supplied backend; C02/C08),
+/// only present under `--cfg redb_verif`
+#[cfg(all(redb_verif, not(redb_no_std)))]
+pub mod verif_cache {
+    pub use crate::tree_store::page_store_verif_cached::*;
+}
+
 /// Verification hook for C01 (`Database::verif_c01_*`), only present under `--cfg redb_verif`
 #[cfg(redb_verif)]
 mod verif_c01;
